@@ -75,6 +75,13 @@ def main():
                 a, b = rnd.choice(PARAMS), rnd.choice(PARAMS)
                 add("specialize", rnd.choice(["specialize_curve", "Curve.specialize"]), G.int_net(rnd, dim, n + 1, 256), a, b)
                 add("specialize", "specialize_curve", G.float_net(rnd, dim, n + 1, 0), G.float_param(rnd), G.float_param(rnd))
+        # boundary parameters: exactly at / next to the values where "snapping" or special-casing could creep in
+        BND = [Fr(2) ** -45, -Fr(2) ** -45, 1 - Fr(2) ** -45, 1 + Fr(2) ** -45, Fr(2) ** -60, 1 - Fr(2) ** -53, Fr(2) ** -30,
+               Fr(1, 2) + Fr(2) ** -50]
+        for n in (1, 2, 3, 4, 5, 9):
+            for a in BND:
+                add("specialize", rnd.choice(["specialize_curve", "Curve.specialize"]), G.float_net(rnd, rnd.choice([1, 2, 3]), n + 1, 0), a, rnd.choice([Fr(1, 2), Fr(1), Fr(0)]))
+                add("specialize", "specialize_curve", G.int_net(rnd, 2, n + 1, 16), rnd.choice([Fr(0), Fr(1, 2)]), a)
         # junction: many random float nets per degree (bitwise)
         for n in degs:
             for _ in range(20 if not thorough else 200):
